@@ -270,3 +270,18 @@ def check(ctx):
                       and ia[1][4] == c(0) and ia[1][3] == c(None))
     ctx.ob("C12.R3", tk, "the history is mapped over chains when handed to the kernels' "
                          "tune (each chain tunes on its own history)", ok)
+    # the history is the CURRENT epoch's chain (not looked up by value, not all epochs)
+    hist = None
+    for t, node, cond in rk.calls:
+        if t[0] == "call" and t[1][0] == "call" and is_call(t[1], "jax.vmap") \
+                and t[1][2][0][0] == "a" and t[1][2][0][2] == "tune":
+            hist = t[2][4] if len(t[2]) > 4 else None
+    hr = ("a", n("self"), "_history_required_for_tuning")
+    cur = ("call", ("a", ("a", n("self"), "_position_chain"), "get_current_chain"), (), ())
+    ok_h = (hist is not None and hist[0] == "phi" and hist[1] == hr and hist[3] == c(None)
+            and hist[2][0] == "call" and hist[2][1][2] in ("expect", "unwrap")
+            and hist[2][1][1] == ("call", ("a", cur, "get"), (), ()))
+    ctx.ob("C12.R3", tk, "the history handed to the tuner is the position chain of the epoch "
+                         "that just ended (get_current_chain().get()), i.e. that epoch's own "
+                         "recorded history", ok_h, detail=short(hist or (), 200),
+           stmt="history source " + pretty(hist or ())[:160])
